@@ -41,3 +41,13 @@ package roi
 //@   ensures result1 == nil
 //@   ensures result0 ==> (exists k int :: 0 <= k && k < len(spans) && spanHits(spans[k], fdiv(e.MinPoint[0], blocksize[0]), fdiv(e.MinPoint[1], blocksize[1]), fdiv(e.MinPoint[2], blocksize[2]), fdiv(e.MaxPoint[0], blocksize[0]), fdiv(e.MaxPoint[1], blocksize[1]), fdiv(e.MaxPoint[2], blocksize[2])))
 //@   ensures !result0 ==> (forall k int :: {spans[k]} 0 <= k && k < len(spans) ==> !spanHits(spans[k], fdiv(e.MinPoint[0], blocksize[0]), fdiv(e.MinPoint[1], blocksize[1]), fdiv(e.MinPoint[2], blocksize[2]), fdiv(e.MaxPoint[0], blocksize[0]), fdiv(e.MaxPoint[1], blocksize[1]), fdiv(e.MaxPoint[2], blocksize[2])))
+
+// NewIterator (C17: ROI-restricted writes): a successful call always yields an iterator - also when no
+// span of the ROI lies in the bounds (then it answers "outside" for every block). Callers treat a nil
+// iterator as "no ROI requested" and would write everything.
+//@ func NewIterator
+//@   prop C17
+//@   safety_off
+//@   calls_havoc
+//@   modifies *
+//@   ensures result1 == nil ==> result0 != nil
